@@ -13,10 +13,11 @@ def run_part(ctx):
     ov = ctx.overlay({PKG: ["vf_world_verif_test.go", "vf_sealsched_verif_test.go"]}, replace=rep)
     scripts = []
     nb = 250 if quick else 4000
-    for (thr, msgs, warm, restart) in [(2, 1, 0, False), (2, 1, 2, True), (3, 1, 1, True), (2, 2, 0, True)]:
+    for (thr, msgs, warm, restart, redeliver) in [(2, 1, 0, False, False), (2, 1, 2, True, False), (3, 1, 1, True, False), (2, 2, 0, True, False),
+                                                  (1, 2, 2, False, True), (2, 2, 1, True, True)]:
         threads = ["t%d" % (i + 1) for i in range(thr)]
-        for seq in vf.blind_schedules(ctx.rng, threads, nb, 10 + 10 * thr * msgs):
-            scripts.append({"id": len(scripts), "cfg": {"threads": thr, "msgs": msgs, "warm": warm, "restart": restart},
+        for seq in vf.blind_schedules(ctx.rng, threads, nb if not redeliver else max(20, nb // 5), 10 + 10 * thr * msgs):
+            scripts.append({"id": len(scripts), "cfg": {"threads": thr, "msgs": msgs, "warm": warm, "restart": restart, "redeliver": redeliver},
                             "steps": [{"act": "step", "d": t} for t in seq]})
     binary = ctx.go_test_compile(PKG, ov, name="sealsched")
     events = ctx.run_sharded(binary, "^TestVerifSealSched$", PKG, scripts, "sealsched", shards=4)
